@@ -100,7 +100,7 @@ func NewLocks(p *Prog) *Locks {
 		inMod[f] = true
 	}
 	for _, f := range p.Funcs {
-		Instrs(f, func(in ssa.Instruction) {
+		InstrsShallow(f, func(in ssa.Instruction) {
 			var callee *ssa.Function
 			if c := CallOf(in); c != nil {
 				callee = StaticCallee(c)
